@@ -66,6 +66,8 @@ RULE = ('per decoder: all byte strings of <= 2 octets (exhaustive), every single
 ASSUMPTIONS = [
     'work is measured as yabgp line events (sys.monitoring), allowance 20000 + 400 per input octet; any exception '
     'type is acceptable for leaf decoders, only Update.parse must not raise',
+    'work inside C code is invisible to line events: for text-like values of growing length the processor time of the call is '
+    'measured too and 3 s for one call on <= 4096 octets counts as unbounded (typical calls take well under 0.05 s)',
 ]
 EXHAUSTIVE = {'quick': False, 'thorough': False}
 
@@ -265,6 +267,22 @@ FILLERS = [lambda n: b'\x00' * n, lambda n: b'\xff' * n, lambda n: bytes((i % 25
            lambda n: (b'\x00\x05\x00\x03' * n)[:n]]
 
 
+# processor time one decoder call may take on <= 4096 octets before it counts as unbounded work (the slowest call on the
+# unchanged tree stays below 0.05 s; the limit only matters for work the line-event budget cannot see)
+CPU_LIMIT = 3.0
+TEXT_LENGTHS = [8, 12, 16, 18, 20, 21, 22, 23, 24, 25, 26, 27, 28, 30, 32, 36, 40, 48, 64, 128, 255, 1024, 4000]
+TEXT_PATTERNS = [
+    lambda n: (b'a' * n)[:n - 1] + b'!',                                   # a long run of letters, then something else
+    lambda n: (b'router-17.backbone.example.net ' * n)[:n - 1] + b')',     # host name followed by a remark
+    lambda n: (b'a1_' * n)[:n - 1] + b' ',
+    lambda n: (b'0123456789' * n)[:n - 1] + b'x',
+    lambda n: (b'a.' * n)[:n - 1] + b'..',
+    lambda n: (b'a-' * n)[:n - 1] + b'_!',
+    lambda n: b' ' * (n - 1) + b'a',
+    lambda n: (b'ab' * n)[:n],                                             # plain text that matches
+    lambda n: (b'\xc3\xa9' * n)[:n - 1] + b'!',                            # non-ASCII letters
+    lambda n: (b'a' * n)[:n - 2] + b'\x00!',
+]
 BIG = 3700
 ERR_ATTRS = [rc.attr(0x40, 1, b'\x05'), rc.attr(0x40, 1, b'\x00\x00'), rc.attr(0x40, 200, b''), rc.attr(0x40, 3, b'\x0a\x00\x00'),
              b'\x40']
@@ -341,6 +359,8 @@ def shards(tier):
         out.append({'name': 'tlv-towers-%d' % i, 'kind': 'towers', 'part': i, 'parts': 8})
     for i in range(16):
         out.append({'name': 'long-patterns-%d' % i, 'kind': 'long', 'group': i, 'ngroups': 16})
+    for i in range(8):
+        out.append({'name': 'text-values-%d' % i, 'kind': 'text', 'part': i, 'parts': 8})
     for i in range(8):
         out.append({'name': 'big-field+error-%d' % i, 'kind': 'bigfield', 'part': i, 'parts': 8})
     for i in range(4 if tier == 'quick' else 16):
@@ -447,6 +467,29 @@ def run_shard(spec, seed, col, tier):
                     col.fail(sig, {'decoder': name, 'data': data.hex()}, detail)
                 n += 1
         col.bulk(n, n, label='long-patterns', sample={'decoder': names[0], 'data': (FILLERS[3](64)).hex() + '...'})
+    elif kind == 'text':
+        # text-like values of growing length (names, host names, almost-host-names) through every decoder: the line-event
+        # budget does not see work done inside C code (a regular expression that backtracks, say), so here the processor
+        # time of the call is measured as well; lengths grow in small steps so that an exponential blow-up is noticed
+        # while a call still returns
+        import time as _time
+        names = sorted(DECODERS)[spec['part']::spec['parts']]
+        n = 0
+        for name in names:
+            for pi, pat in enumerate(TEXT_PATTERNS):
+                for ln in TEXT_LENGTHS:
+                    data = pat(ln)
+                    t0 = _time.process_time()
+                    res = call(name, data, col)
+                    dt = _time.process_time() - t0
+                    n += 1
+                    for sig, detail in res:
+                        col.fail(sig, {'decoder': name, 'data': data.hex()}, detail)
+                    if dt > CPU_LIMIT:
+                        col.fail('cpu-time@%s' % name.split('/')[0], {'decoder': name, 'data': data.hex(), 'cpu_limit': CPU_LIMIT},
+                                 '%s took %.1f s of processor time on %d octets (%r...)' % (name, dt, len(data), data[:40]))
+                        break        # longer values of this pattern would not come back
+        col.bulk(n, n, label='text-values', sample={'decoder': names[0], 'data': TEXT_PATTERNS[0](24).hex()})
     elif kind == 'bigfield':
         # one field of every kind filled to (almost) the whole message, next to an attribute the decoder refuses: the call
         # still returns a result with the sub-error (whatever the decoder does with the partial result must cope with its size)
@@ -557,6 +600,12 @@ def run_shard(spec, seed, col, tier):
 
 def replay(case):
     budget.enable()
+    if case.get('cpu_limit'):
+        import time as _time
+        t0 = _time.process_time()
+        res = call(case['decoder'], bytes.fromhex(case['data']))
+        dt = _time.process_time() - t0
+        return res + ([('cpu-time@%s' % case['decoder'].split('/')[0], '%.1f s of processor time' % dt)] if dt > case['cpu_limit'] else [])
     return call(case['decoder'], bytes.fromhex(case['data']))
 
 
